@@ -10,7 +10,7 @@ Inductive session :=
 | SAcceptAll.
 Definition run_session (d : doc) (s : session) : doc :=
   match s with
-  | SEdits a t es o => let '(d', _, _, _) := apply_edits d a t es o in d'
+  | SEdits a t es o => let '(d', _, _, _, _) := apply_edits d a t es o in d'
   | SReview a t acts => let '(d', _, _) := review_session d a t acts in d'
   | SAcceptAll => accept_all_doc (normalize_doc d)
   end.
